@@ -157,6 +157,31 @@ func genChunks(r *rand.Rand, payload string) []int {
 	return sizes
 }
 
+// doubleHashAtRawLineStart reports whether the framed reply has "##" at the start of a line of the
+// raw stream: at the start of a payload line, or as the first bytes of a chunk. Only there can the
+// read loop's delimiter pattern (?m)^##$ match inside a payload (the listed finding); "##" in the
+// middle of a line is ordinary data.
+func doubleHashAtRawLineStart(payload string, sizes []int) bool {
+	starts := map[int]bool{0: true}
+	off := 0
+	for _, n := range sizes {
+		if n <= 0 || off+n >= len(payload) {
+			break
+		}
+		off += n
+		starts[off] = true
+	}
+	for i := 0; i+1 < len(payload); i++ {
+		if payload[i] == '#' && payload[i+1] == '#' && (starts[i] || (i > 0 && payload[i-1] == '\n')) {
+			return true
+		}
+		// a chunk boundary between the two characters puts the second at a line start; "#" + "\n#"
+		// cannot read as "##", but a boundary right after "##" makes the next header follow it
+	}
+
+	return false
+}
+
 var listedMalformed = map[string]bool{"short-data": true, "oversize": true, "negative": true, "nonnumeric": true, "no-terminator": true, "truncate": true}
 
 func genC02(seed uint64, run int, tier string) Scenario {
